@@ -1034,9 +1034,6 @@ func c13Check(ctx *vfCtx, c c13Case) {
 			ctx.Fail("C13/valid-request-not-readable", "http.ReadRequest cannot read the well-formed request that HTTPRequest + Write produced: %v", rerr)
 			return
 		}
-		if testing.Verbose() {
-			fmt.Printf("C13DEBUG wire-rejected kind=%s uri=%q method=%q err=%v\n", kind, w.Target, w.Method, rerr)
-		}
 		ctx.Unjudged("net/http could not read the request line/headers; the library never saw the request")
 		return
 	}
@@ -1716,6 +1713,28 @@ var c13FuzzBases = []c13Case{
 		KeyState: "valid", Key2State: "valid", Local: []string{"example.org", "s2.example.com"}, UseFunc: true, Verifier: "table", NowMS: 1700000000900, Skew: 3600000},
 }
 
+// c13FuzzEdit is a small structure-aware mutator on top of the byte-level one: it inserts one token
+// from a dictionary at a structural position of the header template (next to a quote, comma, equals
+// sign, space, or at the end). Byte-level mutation alone has no coverage signal that would lead it
+// to, say, a single blank inside the quotes.
+var c13FuzzDict = []string{" ", ".", "x", `"`, ",", "=", "\t", "'", ";", `\`, "origin=", ",origin=$E", ",destination=$L", "$E", "X-Matrix ", "\x00", "\xff", ":", "/"}
+
+func c13FuzzEdit(h string, edit uint16) string {
+	if edit == 0 {
+		return h
+	}
+	tok := c13FuzzDict[int(edit>>8)%len(c13FuzzDict)]
+	var pos []int
+	for i := 0; i < len(h); i++ {
+		if strings.IndexByte("\",= ", h[i]) >= 0 {
+			pos = append(pos, i, i+1)
+		}
+	}
+	pos = append(pos, len(h))
+	i := pos[int(edit&0xff)%len(pos)]
+	return h[:i] + tok + h[i:]
+}
+
 func FuzzVF_C13(f *testing.F) {
 	seeds := [][2]string{
 		{c13Canon, ""}, {"$C", ""}, {"$C", "$C"},
@@ -1729,10 +1748,18 @@ func FuzzVF_C13(f *testing.F) {
 		{`X-Matrix`, `x-matrix origin="$O"`}, {``, ``}, {`X-Matrix ,,,=,"`, `X-Matrix origin==`},
 		{`X-Matrix origin="$O"",key=""$K",sig='$S',destination=$D`, ""},
 	}
-	for i, s := range seeds {
-		f.Add(s[0], s[1], uint8(i), uint16(i*37))
+	// near misses: one extra byte next to each value, inside and outside the quotes, so that the
+	// byte-level mutator explores the neighbourhood in which a lenient parser would "repair" a value
+	for _, p := range []string{"$O", "$K", "$S", "$D"} {
+		for _, v := range []string{"x" + p, p + "x", p + `"x`, `x"` + p} {
+			seeds = append(seeds, [2]string{strings.Replace(c13Canon, p, v, 1), ""})
+		}
 	}
-	f.Fuzz(func(t *testing.T, h1, h2 string, pick uint8, bit uint16) {
+	for i, s := range seeds {
+		f.Add(s[0], s[1], uint8(i), uint16(i*37), uint16(0))
+	}
+	f.Fuzz(func(t *testing.T, h1, h2 string, pick uint8, bit uint16, edit uint16) {
+		h1 = c13FuzzEdit(h1, edit)
 		c := c13FuzzBases[int(pick)%len(c13FuzzBases)]
 		c.T = c13Tamper{Kind: "headers", Headers: []string{h1}, SigBit: int(bit), PostWire: true}
 		if h2 != "" {
